@@ -48,10 +48,34 @@ theorem history_accepted (limit extra : Nat) (hdr : Nat → Hdr)
 theorem accepted_start_is_ok (v : Lumina.Spec.C34.View) (h : Nat) (c : List Share) (ts : List Tok)
     (hacc : (Lumina.Spec.C34.walk v (Tok.metaUpd h c :: ts)).isSome = true) :
     Lumina.Spec.C34.startOK v h = true := by
-  simp only [Lumina.Spec.C34.walk, Lumina.Spec.C34.onTok] at hacc
+  simp only [Lumina.Spec.C34.walk, Lumina.Spec.C34.onTok, Lumina.Spec.C34.start] at hacc
   cases hs : Lumina.Spec.C34.startOK v h
   · rw [hs] at hacc; simp at hacc
   · rfl
+
+/-- a start cannot hide behind a missing metadata record: an accepted `SamplingStarted` event or share request of
+    block `h` means that `h` is already counted as in progress (it passed `startOK` earlier) or passes `startOK` now -/
+theorem accepted_activity_is_started (v : Lumina.Spec.C34.View) (h : Nat) (t : Tok) (ts : List Tok)
+    (ht : (∃ w sh, t = Tok.started h w sh) ∨ (∃ sh, t = Tok.req h sh))
+    (hacc : (Lumina.Spec.C34.walk v (t :: ts)).isSome = true) :
+    v.inProgress h = true ∨ Lumina.Spec.C34.startOK v h = true := by
+  have hp : (match Lumina.Spec.C34.partOf v h with | none => none | some v' => Lumina.Spec.C34.walk v' ts).isSome = true := by
+    rcases ht with ⟨w, sh, rfl⟩ | ⟨sh, rfl⟩ <;>
+      (simp only [Lumina.Spec.C34.walk, Lumina.Spec.C34.onTok] at hacc; exact hacc)
+  cases hi : v.inProgress h
+  · right
+    cases hs : Lumina.Spec.C34.startOK v h
+    · simp [Lumina.Spec.C34.partOf, Lumina.Spec.C34.start, hi, hs] at hp
+    · rfl
+  · exact Or.inl rfl
+
+/-- **histories that also contain answers which are neither a sample nor a timeout** (P2p errors, undecodable or
+    foreign bytes: fatal for the worker): still accepted -/
+theorem history_with_bad_answers_accepted (limit extra : Nat) (hdr : Nat → Hdr) (sts : List Stim)
+    (hwf : ∀ st ∈ sts, StimWF st) :
+    acceptsX34 (init { limit := limit, extra := extra, maxSamples := Lumina.Gen.C34.MAX_SAMPLES_NEEDED,
+                       prunerThreshold := Lumina.Gen.C34.PRUNER_THRESHOLD } hdr) sts = true :=
+  (runX_ok sts _ (init_ok limit extra hdr) hwf).1
 
 /-- what `startOK` says, clause by clause (so that the Boolean checker cannot hide anything) -/
 theorem startOK_spelled_out (v : Lumina.Spec.C34.View) (h : Nat) (hok : Lumina.Spec.C34.startOK v h = true) :
@@ -150,6 +174,12 @@ example : accepts34 s0 h2 = true := by decide
     of block 2 is rejected (over the limit), and so is a start of block 1 (not the highest, outside the window) -/
 example : Lumina.Spec.C34.specOK (view34 (run s0 h1).1) (.setNumPrunable 0) [Tok.metaUpd 2 g2] = false := by decide
 example : Lumina.Spec.C34.specOK (view34 (run s0 h1).1) (.setNumPrunable 0) [Tok.metaUpd 1 g2] = false := by decide
+
+/-- … and a start that skips the metadata record is still seen: a `SamplingStarted` / request of block 2 while block 3
+    fills the limit is rejected; the same actions for block 3 (in progress) are accepted -/
+example : Lumina.Spec.C34.specOK (view34 (run s0 h1).1) (.setNumPrunable 0) [Tok.started 2 2 g2, Tok.req 2 g2] = false := by decide
+example : Lumina.Spec.C34.specOK (view34 (run s0 h1).1) (.setNumPrunable 0) [Tok.req 2 g2] = false := by decide
+example : Lumina.Spec.C34.specOK (view34 (run s0 h1).1) (.setNumPrunable 0) [Tok.started 3 2 g2, Tok.req 3 g2] = true := by decide
 
 /-- pruner backlog: with 512 prunable blocks reported and everything up to 3 prunable, nothing starts;
     when the backlog drops to 511 the newest block starts -/
